@@ -5,7 +5,7 @@ Inductive pspec := PNone | PSelf | PFree.             (* the scope_provider argu
 Inductive pstatus := PSOk (sc:scope) | PSBad.         (* does the object satisfy the protocol now, and what it returns *)
 
 Record fn := {
-  f_params : list (string * hint);   (* annotated parameters in signature order (get_type_hints order) *)
+  f_params : list (string * hint);   (* annotated parameters in signature order (the loop follows signature.parameters; class forms follow get_type_hints order = declaration order) *)
   f_ret : option hint;               (* the return annotation, if any *)
   f_provider : pspec;
   f_is_method : bool;                (* "self" or "cls" among the parameters *)
